@@ -4,7 +4,8 @@ Open Scope Z_scope.
 
 (** the comparisons regenerated from the Rust source (Gen/InboundChecks.v) are unfolded where a
     proof needs to know what they say: if the source changes one of them, that proof fails *)
-Ltac checks := unfold mpp_complete_at_tick, mpp_already_complete, mpp_complete_on_arrival, claim_amount_mismatch in *;
+Ltac checks := unfold mpp_complete_at_tick, mpp_already_complete, mpp_complete_on_arrival, claim_amount_mismatch,
+                 recv_cltv_too_soon, recv_current_height, min_final_cltv_too_soon, min_final_cltv_expected_height in *;
                cbn [unwrap_z unwrap_or] in *.
 
 (** [final_hop_underpaid]: without [accept_underpaying_htlcs] the part must carry at least the
@@ -138,7 +139,7 @@ Lemma recv_reject s hash pid onion_cltv cltv value intended fl purpose auth min_
   (exists d, min_cltv = Some d /\ cltv < height s + d) ->
   exists r, step s (Recv hash pid onion_cltv cltv value intended fl purpose auth min_cltv sk up) = (s, [OFailPart pid r]).
 Proof.
-  intros Hrej. cbn [step]. unfold recv.
+  intros Hrej. cbn [step]. unfold recv. checks.
   destruct (Z.ltb_spec cltv onion_cltv); [eexists; reflexivity|].
   destruct (Z.leb_spec cltv (height s + HTLC_FAIL_BACK_BUFFER + 1)); [eexists; reflexivity|].
   destruct (final_hop_underpaid up intended value sk) eqn:Eu; [eexists; reflexivity|].
@@ -219,7 +220,7 @@ Lemma claimable_only_if_complete s o hash A d :
     (exists p, In p (py_parts e') /\ pt_id p = pid /\ pt_cltv p = cltv /\ pt_value p = value).
 Proof.
   intros Hin. destruct o as [h pid oc cltv value intended fl purpose auth mc sk up| |bh|ch known|fh].
-  - cbn [step] in *. unfold recv in *.
+  - cbn [step] in *. unfold recv in *. checks.
     destruct (Z.ltb_spec cltv oc); [destruct Hin as [Hx|[]]; discriminate|].
     destruct (Z.leb_spec cltv (height s + HTLC_FAIL_BACK_BUFFER + 1)); [destruct Hin as [Hx|[]]; discriminate|].
     destruct (final_hop_underpaid up intended value sk) eqn:Eu; [destruct Hin as [Hx|[]]; discriminate|].
